@@ -26,11 +26,8 @@ Proof. intros ->. rewrite nth_error_app2 by lia. rewrite Nat.sub_diag. reflexivi
 Lemma repeat_snoc {A} (x : A) n : repeat x (S n) = repeat x n ++ [x].
 Proof. induction n as [|n IH]; [reflexivity|]. cbn [repeat app] in *. rewrite <- IH. reflexivity. Qed.
 
-Lemma nats_eqb_eq a b : nats_eqb a b = true -> a = b.
-Proof.
-  revert b. induction a as [|x a IH]; intros [|y b]; cbn; try discriminate; [reflexivity|].
-  intros H. apply andb_prop in H as [H1 H2]. apply Nat.eqb_eq in H1. subst. f_equal. auto.
-Qed.
+Lemma int32_ok_lt nb n : (Z.of_nat (nb + n) <= int32_lim)%Z -> 0 < n -> int32_ok nb = true.
+Proof. intros H Hn. unfold int32_ok. apply Z.ltb_lt. lia. Qed.
 
 (* ------------------------------------------------------------------ the pieces of a row *)
 Definition set_lin (acc : list (nat * Q)) (cv : nat * Q) := set_assoc (fst cv) (snd cv) acc.
@@ -68,10 +65,10 @@ Proof.
   rewrite forallb_forall in *. intros cv Hin. specialize (H2 cv Hin). apply Nat.ltb_lt in H2. apply Nat.ltb_lt. lia.
 Qed.
 
-Lemma row_tail_ok nb e bk lo up : nb < 128 ->
+Lemma row_tail_ok nb e bk lo up : int32_ok nb = true ->
   row_tail nb e bk lo up =
   [TPutAijList (repeat nb (length (sF (sp e)))) (map fst (sF (sp e))) (map snd (sF (sp e))); TPutConBound nb bk lo up].
-Proof. intros H. unfold row_tail, int8_ok. apply Nat.ltb_lt in H. rewrite H. reflexivity. Qed.
+Proof. intros H. unfold row_tail. rewrite H. reflexivity. Qed.
 
 (* single steps, on an arbitrary state *)
 Definition set_rows (st : tstate) (rows : list row) : tstate :=
@@ -125,7 +122,7 @@ Proof. intros Hb Hs. cbn [step]. rewrite Hb. cbn [resolve]. rewrite Hs, Nat.eqb_
 (** send_constraint_to_solver adds exactly the row [sc_row e s] (and stores one symmetric matrix) *)
 Lemma run_sc pc e s st nb k :
   nb = length (t_rows st) -> k = length (t_syms st) -> nth_error (t_bars st) 0 = Some pc ->
-  wf_expr' pc (length (t_vb st)) e = true -> nb < 128 ->
+  wf_expr' pc (length (t_vb st)) e = true -> int32_ok nb = true ->
   run (emit_sc pc nb k e s) st = Some (grow st [] [sc_row e s] [(pc, sG (sp e))]).
 Proof.
   intros Hnb Hk Hbar Hwf Hlt. unfold wf_expr' in Hwf. apply andb_prop in Hwf as [Hv Hf].
@@ -154,7 +151,7 @@ Qed.
 Lemma run_entry pc size bar e i j st nb k :
   nb = length (t_rows st) -> k = length (t_syms st) -> nth_error (t_bars st) 0 = Some pc ->
   nth_error (t_bars st) bar = Some size -> bar <> 0 -> i < size -> j < size ->
-  wf_expr' pc (length (t_vb st)) e = true -> nb < 128 ->
+  wf_expr' pc (length (t_vb st)) e = true -> int32_ok nb = true ->
   run (emit_entry pc size bar nb k i j e) st
   = Some (grow st [] [lmi_row bar i j e] [(pc, sG (sp e)); (size, [coupling_triple i j])]).
 Proof.
@@ -193,14 +190,15 @@ Definition entry_ok (pc nvar size : nat) (ije : nat * nat * edict) : Prop :=
 Lemma run_entries pc size bar : forall es st nb k,
     nb = length (t_rows st) -> k = length (t_syms st) -> nth_error (t_bars st) 0 = Some pc ->
     nth_error (t_bars st) bar = Some size -> bar <> 0 ->
-    Forall (entry_ok pc (length (t_vb st)) size) es -> nb + length es <= 128 ->
+    Forall (entry_ok pc (length (t_vb st)) size) es -> (Z.of_nat (nb + length es) <= int32_lim)%Z ->
     run (emit_entries pc size bar nb k es) st = Some (grow st [] (entry_rows bar es) (entry_syms pc size es)).
 Proof.
   induction es as [|[[i j] e] es IH]; intros st nb k Hnb Hk Hb0 Hb Hne Hok Hle.
   - cbn. rewrite grow_nil. reflexivity.
   - inversion Hok as [|? ? [Hi [Hj Hwf]] Hok']; subst. cbn [fst snd] in *.
-    cbn [emit_entries length] in *. assert (Hlt : length (t_rows st) < 128) by lia.
-    unfold int8_ok. apply Nat.ltb_lt in Hlt as Hlt'. rewrite Hlt'.
+    cbn [emit_entries length] in *.
+    assert (Hlt : int32_ok (length (t_rows st)) = true) by (apply (int32_ok_lt _ (S (length es))); [exact Hle|lia]).
+    rewrite Hlt.
     rewrite run_app. rewrite (run_entry pc size bar e i j st _ _ eq_refl eq_refl Hb0 Hb Hne Hi Hj Hwf Hlt).
     rewrite IH; [rewrite grow_grow; reflexivity|..];
       unfold grow; cbn [t_rows t_syms t_bars t_vb length]; rewrite ?app_length, ?app_nil_r; cbn [length];
@@ -265,49 +263,54 @@ Proof. reflexivity. Qed.
 
 Definition dims (l : sent) : list nat := map (fun m => length m) (lmis l).
 
-Lemma run_items pc ec : forall l st nb k kb,
-    nb = length (t_rows st) -> k = length (t_syms st) -> S kb = length (t_bars st) ->
+Lemma total_rows_cons it l : total_rows (it :: l) = item_rows it + total_rows l.
+Proof. reflexivity. Qed.
+
+Lemma run_items pc ec : forall l st nb k nsdp,
+    nb = length (t_rows st) -> k = length (t_syms st) -> nsdp = length (t_bars st) -> 1 <= nsdp ->
     nth_error (t_bars st) 0 = Some pc -> ec <= length (t_vb st) ->
-    wf_sent pc ec l = true -> nb + total_rows l <= 128 ->
-    run (emit_items pc nb k (seq kb (length (lmis l))) l) st
-    = Some (grow st (dims l) (rows_of (S kb) l) (syms_of pc l)).
+    wf_sent pc ec l = true -> (Z.of_nat (nb + total_rows l) <= int32_lim)%Z ->
+    run (emit_items pc nb k nsdp l) st
+    = Some (grow st (dims l) (rows_of nsdp l) (syms_of pc l)).
 Proof.
-  induction l as [|[e s|m] l IH]; intros st nb k kb Hnb Hk Hkb Hb0 Hec Hwf Hle.
+  induction l as [|[e s|m] l IH]; intros st nb k nsdp Hnb Hk Hkb Hpos Hb0 Hec Hwf Hle.
   - cbn. unfold dims; cbn. rewrite grow_nil. reflexivity.
   - cbn [wf_sent forallb] in Hwf. apply andb_prop in Hwf as [He Hwf].
-    cbn [total_rows fold_right item_rows] in Hle. fold (total_rows l) in Hle.
-    rewrite lmis_cons_sc. cbn [emit_items].
-    assert (Hlt : nb < 128) by lia. unfold int8_ok. apply Nat.ltb_lt in Hlt as Hlt'. rewrite Hlt'.
-    rewrite run_app.
+    rewrite total_rows_cons in Hle. cbn [item_rows] in Hle.
+    cbn [emit_items].
+    assert (Hlt : int32_ok nb = true) by (apply (int32_ok_lt _ (1 + total_rows l)); [exact Hle|lia]).
+    rewrite Hlt. rewrite run_app.
     rewrite (run_sc pc e s st nb k Hnb Hk Hb0 (wf_expr_mono pc ec _ e Hec He) Hlt).
-    rewrite (IH _ (S nb) (S k) kb).
+    rewrite (IH _ (S nb) (S k) nsdp).
     + rewrite grow_grow. unfold dims. rewrite lmis_cons_sc. reflexivity.
-    + unfold grow; cbn. rewrite app_length. cbn. lia.
-    + unfold grow; cbn. rewrite app_length. cbn. lia.
-    + unfold grow; cbn. rewrite app_nil_r. exact Hkb.
-    + unfold grow; cbn. rewrite app_nil_r. exact Hb0.
-    + unfold grow; cbn. exact Hec.
+    + unfold grow; cbn [t_rows]. rewrite app_length. cbn [length]. lia.
+    + unfold grow; cbn [t_syms]. rewrite app_length. cbn [length]. lia.
+    + unfold grow; cbn [t_bars]. rewrite app_nil_r. exact Hkb.
+    + exact Hpos.
+    + unfold grow; cbn [t_bars]. rewrite app_nil_r. exact Hb0.
+    + unfold grow; cbn [t_vb]. exact Hec.
     + exact Hwf.
     + lia.
   - cbn [wf_sent forallb] in Hwf. apply andb_prop in Hwf as [Hm Hwf].
-    cbn [total_rows fold_right item_rows] in Hle. fold (total_rows l) in Hle.
-    rewrite lmis_cons_lmi. cbn [length seq emit_items hd tl].
-    assert (Hle' : Nat.leb (nb + length (entries m)) 128 = true) by (apply Nat.leb_le; lia). rewrite Hle'.
+    rewrite total_rows_cons in Hle. cbn [item_rows] in Hle.
+    cbn [emit_items]. replace (S nsdp - 1) with nsdp by lia.
+    assert (Hle' : Z.leb (Z.of_nat (nb + length (entries m))) int32_lim = true) by (apply Z.leb_le; lia). rewrite Hle'.
     change (TAppendBarvars [length m] :: ?x ++ ?y) with ([TAppendBarvars [length m]] ++ x ++ y).
     rewrite run_app. cbn [run step].
     set (st1 := mkT (t_bars st ++ [length m]) (t_vb st) (t_rows st) (t_syms st) (t_c st) (t_barc st) (t_sense st)).
     rewrite run_app.
     assert (Hb0' : nth_error (t_bars st ++ [length m]) 0 = Some pc).
     { destruct (t_bars st) as [|b bs] eqn:Eb; [cbn in Hkb; lia|]. cbn in *. exact Hb0. }
-    rewrite (run_entries pc (length m) (S kb) (entries m) st1 nb k Hnb Hk Hb0'
-               (nth_error_last (t_bars st) (length m) (S kb) Hkb) (Nat.neq_succ_0 kb)
+    rewrite (run_entries pc (length m) nsdp (entries m) st1 nb k Hnb Hk Hb0'
+               (nth_error_last (t_bars st) (length m) nsdp Hkb) ltac:(lia)
                (entries_ok pc ec _ m Hec Hm)) by lia.
-    rewrite (IH _ (nb + length (entries m)) (k + 2 * length (entries m)) (S kb)).
+    rewrite (IH _ (nb + length (entries m)) (k + 2 * length (entries m)) (S nsdp)).
     + rewrite grow_grow. unfold st1, grow, dims; cbn [t_bars t_vb t_rows t_syms t_c t_barc t_sense].
       rewrite lmis_cons_lmi. cbn [map rows_of syms_of]. rewrite <- !app_assoc. reflexivity.
     + unfold grow, st1; cbn [t_rows]. rewrite app_length. unfold entry_rows. rewrite map_length. lia.
     + unfold grow, st1; cbn [t_syms]. rewrite app_length, entry_syms_length. lia.
     + unfold grow, st1; cbn [t_bars]. rewrite app_nil_r, app_length. cbn [length]. lia.
+    + lia.
     + unfold grow, st1; cbn [t_bars]. rewrite app_nil_r. exact Hb0'.
     + unfold grow, st1; cbn [t_vb]. exact Hec.
     + exact Hwf.
@@ -342,12 +345,12 @@ Qed.
 Definition base_state (l : sent) (pc ec obj : nat) : tstate :=
   mkT (pc :: dims l) (vb_of ec) (rows_of 1 l) (syms_of pc l) [(obj, 1%Q)] [] OMax.
 
-Lemma run_body l pc ec : wf_sent pc ec l = true -> total_rows l <= 128 ->
-  run (prologue pc ec ++ emit_items pc 0 0 (seq 0 (length (lmis l))) l) t0
+Lemma run_body l pc ec : wf_sent pc ec l = true -> (Z.of_nat (total_rows l) <= int32_lim)%Z ->
+  run (prologue pc ec ++ emit_items pc 0 0 1 l) t0
   = Some (mkT (pc :: dims l) (vb_of ec) (rows_of 1 l) (syms_of pc l) [] [] OMin).
 Proof.
   intros Hwf Hle. rewrite run_app, run_prologue.
-  rewrite (run_items pc ec l _ 0 0 0); cbn [t_rows t_syms t_bars t_vb length nth_error]; try reflexivity; try lia.
+  rewrite (run_items pc ec l _ 0 0 1); cbn [t_rows t_syms t_bars t_vb length nth_error]; try reflexivity; try lia.
   - rewrite vb_of_length. lia.
   - exact Hwf.
 Qed.
@@ -361,25 +364,25 @@ Proof.
   assert (H : Nat.ltb obj (S ec) = true) by (apply Nat.ltb_lt; lia). rewrite H. reflexivity.
 Qed.
 
-Lemma guard_spec l pc ec obj ctrs : guard l pc ec obj ctrs = true ->
-  wf_sent pc ec l = true /\ obj < ec /\ ctrs = seq 0 (length (lmis l)) /\ total_rows l <= 128.
+Lemma guard_spec l pc ec obj : guard l pc ec obj = true ->
+  wf_sent pc ec l = true /\ obj < ec /\ (Z.of_nat (total_rows l) <= int32_lim)%Z.
 Proof.
-  unfold guard, counters_in_send_order, rows_fit_int8. intros H.
-  apply andb_prop in H as [H H4]. apply andb_prop in H as [H H3]. apply andb_prop in H as [H1 H2].
-  repeat split; [exact H1|apply Nat.ltb_lt; exact H2|apply nats_eqb_eq; exact H3|apply Nat.leb_le; exact H4].
+  unfold guard, rows_fit_int32. intros H.
+  apply andb_prop in H as [H H3]. apply andb_prop in H as [H1 H2].
+  repeat split; [exact H1|apply Nat.ltb_lt; exact H2|apply Z.leb_le; exact H3].
 Qed.
 
-Lemma run_emit l pc ec obj ctrs : guard l pc ec obj ctrs = true ->
-  run (emit l pc ec obj ctrs) t0 = Some (base_state l pc ec obj).
+Lemma run_emit l pc ec obj : guard l pc ec obj = true ->
+  run (emit l pc ec obj) t0 = Some (base_state l pc ec obj).
 Proof.
-  intros Hg. apply guard_spec in Hg as (Hwf & Hobj & -> & Hle).
-  unfold emit. apply Nat.leb_le in Hle as Hle'. rewrite Hle'.
+  intros Hg. apply guard_spec in Hg as (Hwf & Hobj & Hle).
+  unfold emit, rows_fit_int32. apply Z.leb_le in Hle as Hle'. rewrite Hle'.
   rewrite app_assoc, run_app, (run_body l pc ec Hwf Hle). apply run_epilogue. exact Hobj.
 Qed.
 
-Theorem same_sdp l pc ec obj ctrs : guard l pc ec obj ctrs = true ->
-  task_denote (emit l pc ec obj ctrs) = Some (sdp_of l pc ec obj).
-Proof. intros Hg. unfold task_denote. rewrite (run_emit _ _ _ _ _ Hg). reflexivity. Qed.
+Theorem same_sdp l pc ec obj : guard l pc ec obj = true ->
+  task_denote (emit l pc ec obj) = Some (sdp_of l pc ec obj).
+Proof. intros Hg. unfold task_denote. rewrite (run_emit _ _ _ _ Hg). reflexivity. Qed.
 
 (* ------------------------------------------------------------------ reads *)
 Lemma run_lmi_reads : forall l st cp, cp + length (lmis l) <= length (t_bars st) ->
@@ -414,26 +417,23 @@ Proof.
   assert (H' : Nat.ltb obj nvar = true) by (apply Nat.ltb_lt; exact H). rewrite H'. reflexivity.
 Qed.
 
-Theorem heuristic_sdp l pc ec obj ctrs v W :
-  guard l pc ec obj ctrs = true -> objective_is_last_leaf ec obj = true ->
-  total_rows l < 128 -> valid_triples pc W = true ->
-  task_denote (emit l pc ec obj ctrs ++ solve_reads ++ recover_reads l
+Theorem heuristic_sdp l pc ec obj v W :
+  guard l pc ec obj = true -> int32_ok (total_rows l) = true -> valid_triples pc W = true ->
+  task_denote (emit l pc ec obj ++ solve_reads ++ recover_reads l
                ++ emit_prepare pc ec obj (total_rows l) (total_syms l) v
                ++ emit_heuristic pc (S (total_syms l)) W)
   = Some (sdp_heur l pc ec obj v W).
 Proof.
-  intros Hg Hlast Hlt HW. unfold task_denote.
-  rewrite run_app, (run_emit _ _ _ _ _ Hg).
+  intros Hg Hlt HW. unfold task_denote.
+  rewrite run_app, (run_emit _ _ _ _ Hg).
   rewrite app_assoc, run_app, run_reads.
-  apply guard_spec in Hg as (Hwf & Hobj & _ & _).
-  unfold objective_is_last_leaf in Hlast. apply Nat.eqb_eq in Hlast. subst ec.
+  apply guard_spec in Hg as (Hwf & Hobj & _).
   rewrite run_app. unfold emit_prepare. rewrite run_app.
   cbn [run step base_state t_vb t_c put_c]. rewrite vb_of_length.
-  replace (S obj - 1) with obj by lia.
-  assert (H1 : Nat.ltb obj (S (S obj)) = true) by (apply Nat.ltb_lt; lia). rewrite H1.
+  assert (H1 : Nat.ltb obj (S ec) = true) by (apply Nat.ltb_lt; lia). rewrite H1.
   cbn [set_assoc]. rewrite Nat.eqb_refl.
   unfold base_state. cbn [t_bars t_vb t_rows t_syms t_c t_barc t_sense].
-  set (st1 := mkT (pc :: dims l) (vb_of (S obj)) (rows_of 1 l) (syms_of pc l) [(obj, 0%Q)] [] OMin).
+  set (st1 := mkT (pc :: dims l) (vb_of ec) (rows_of 1 l) (syms_of pc l) [(obj, 0%Q)] [] OMin).
   rewrite (run_sc pc (heur_edict obj v) Ineq st1 (total_rows l) (total_syms l)).
   - unfold emit_heuristic.
     erewrite run_cons; [|apply step_symmat; [exact HW|unfold grow, st1; cbn [t_syms]; rewrite app_length, syms_of_length; cbn [length]; lia]].
@@ -449,6 +449,6 @@ Proof.
   - exact Hlt.
 Qed.
 
-(** solve(): [xx[-2]] is the objective exactly when it is the last leaf *)
-Theorem readout_last_leaf ec obj : objective_is_last_leaf ec obj = true -> readout_index (S ec) = obj.
-Proof. unfold objective_is_last_leaf, readout_index. intros H. apply Nat.eqb_eq in H. lia. Qed.
+(** solve(): the value returned is the objective's variable *)
+Theorem readout_objective xx obj st : mosek_solve_value xx obj st = Some (nth obj xx 0%Q).
+Proof. reflexivity. Qed.
